@@ -185,7 +185,49 @@ def drop_logging(txt):
     return res
 
 
-PRE = {'drop_logging': drop_logging}
+_ZIP_RE = re.compile(r'^([ \t]*)for \(&(\w+), (\w+)\) in ([\w\.]+)\.iter\(\)\.zip\(([\w\.]+)\.iter_mut\(\)\) \{[ \t]*$', re.M)
+_ENUM_RE = re.compile(r'^([ \t]*)for \((\w+), (\w+)\) in ([\w\.]+)\.iter\(\)\.enumerate\(\) \{[ \t]*$', re.M)
+_FILL_RE = re.compile(r'^([ \t]*)([\w\.]+)\.fill\(([^()]+)\);[ \t]*$', re.M)
+
+
+def index_loops(txt):
+    """Pre-normalisation `index_loops` (applied to the pinned AND the current text of a unit before alignment): iterator
+    forms for which the installed vstd has no specification become index loops over the same elements in the same order:
+      for (&P, O) in A.iter().zip(B.iter_mut()) { BODY }
+          ->  for verif_z in 0..ol_min_usize(A.len(), B.len()) { let P = A[verif_z]; BODY with `*O` := `B[verif_z]` }
+      for (I, X) in A.iter().enumerate() { BODY }
+          ->  for I in 0..A.len() { let X = &A[I]; BODY }
+      A.fill(V);  ->  ol_fill(&mut A, V);      (outlined, assumed contract: every element equals V afterwards)
+    A body that uses O otherwise than as `*O` keeps that use and then fails to compile (undecided, never an alarm)."""
+    while True:
+        m = _ZIP_RE.search(txt)
+        if not m:
+            break
+        ind, pv, ov, a, b = m.groups()
+        ob = m.end() - 1 - (len(m.group(0)) - len(m.group(0).rstrip()))
+        ob = txt.index('{', m.start(), m.end() + 1) if False else txt.rindex('{', m.start(), m.end())
+        try:
+            cb = rustscan.match_brace(txt, ob)
+        except rustscan.ScanError:
+            break
+        body = txt[ob + 1:cb]
+        body = re.sub(r'\*%s\b' % re.escape(ov), '%s[verif_z]' % b, body)
+        head = '%sfor verif_z in 0..ol_min_usize(%s.len(), %s.len()) {\n%s    let %s = %s[verif_z];' % (ind, a, b, ind, pv, a)
+        txt = txt[:m.start()] + head + body + txt[cb:]
+    while True:
+        m = _ENUM_RE.search(txt)
+        if not m:
+            break
+        ind, iv, xv, a = m.groups()
+        head = '%sfor %s in 0..%s.len() {\n%s    let %s = &%s[%s];' % (ind, iv, a, ind, xv, a, iv)
+        txt = txt[:m.start()] + head + txt[m.end():]
+    txt = _FILL_RE.sub(r'\1ol_fill(&mut \2, \3);', txt)
+    return txt
+
+
+PRE = {'drop_logging': drop_logging, 'index_loops': index_loops}
+PRE_DOC = {'drop_logging': ('logging statements', '(dropped)'),
+           'index_loops': ('for .. in A.iter().zip(B.iter_mut()) / A.iter().enumerate() / A.fill(v)', 'index loops over the same elements / ol_fill(&mut A, v)')}
 
 
 def apply_pre(txt, names):
@@ -857,7 +899,7 @@ def apply_overlay(repo_src_dir, out_src_dir, units, canary=False, only_files=Non
                 text = ''
             repl.append((s, e, text))
             report[u.id] = {'id': u.id, 'file': file, 'status': status, 'sha_current': sha(cur),
-                            'sha_pinned': sha(u.pinned), 'edits': ([{'rule': 'pre:' + x, 'before': 'logging statements', 'after': '(dropped)'} for x in (pre or [])] + [{'rule': 'rename-in-annotations', 'before': a, 'after': b} for a, b in sorted(renames.items())] + script.edits()), 'props': u.props,
+                            'sha_pinned': sha(u.pinned), 'edits': ([{'rule': 'pre:' + x, 'before': PRE_DOC[x][0], 'after': PRE_DOC[x][1]} for x in (pre or [])] + [{'rule': 'rename-in-annotations', 'before': a, 'after': b} for a, b in sorted(renames.items())] + script.edits()), 'props': u.props,
                             'kind': u.kind}
         repl.sort()
         for k in range(1, len(repl)):
